@@ -171,6 +171,21 @@ func c09Run(cc *c09Case) ([]string, map[string]interface{}, error) {
 			}
 		}
 	}
+	// a data context is not tied to an instance: one that was first used with instance 0 (for up to two cycles)
+	// is then executed with a new instance, which must validate on whatever facts that left
+	if kbX, xerr := obs.InstanceOf(lib, obs.KBName, obs.KBVersion); xerr == nil {
+		cx := *c
+		cx.Init = cc.States[len(cc.States)-1]
+		cx.PriorSameDC, cx.PriorOtherInstance, cx.PriorKB, cx.PriorMaxCycle = true, true, kbs[0], 2
+		hX := obs.DeepHash(kbs[0])
+		_ = hX
+		rep := val.RunOn(&cx, &prepUse, kbX)
+		if rep.Excluded == "" {
+			for _, m := range clauseViolations(rep) {
+				v = append(v, "new instance executed on a data context that instance 0 had used before: "+m)
+			}
+		}
+	}
 	// the library itself loses a rule: instances can still be created, and they are the remaining rules
 	if cc.LibRemove != "" {
 		lib.RemoveRuleEntry(cc.LibRemove, obs.KBName, obs.KBVersion)
@@ -243,7 +258,7 @@ func c09Gen(rt *rapid.T) (*c09Case, *gen.RuleSet) {
 }
 
 func TestC09(t *testing.T) {
-	col := stats.New("C09", "generated rule sets (as C01, pairwise distinct saliences; built from text or loaded from a binary image), k = 1..5 instances with different facts per instance. (a) every NewKnowledgeBaseInstance call succeeds (before use, after other instances ran/removed rules, and - in a third of the cases - after a rule was removed from the library itself, where the new instance must validate as the remaining rules); (b) every instance's run is validated against fresh single-rule truth and the reference replay; (c) state-hash isolation: a deep hash of everything reachable from a *KnowledgeBase by a generic reflection walk (all engine structs behind pointers/slices/maps, exported or not, incl. memo flags and remembered values; foreign objects by identity) is taken for the blueprint and the other instances before and after one instance executes, retracts and removes rules, and must not change; (d) interleaving: instance 0 is paused inside its j-th listener event while instance 1 runs to its end and has a rule removed and one retracted, then resumes - its trace must validate and equal its stand-alone run; (e) in the race-detector build G in {2,4,16,64} goroutines x GOMAXPROCS in {1,2,16} concurrently create instances from one library and execute them on their own facts: each result equals the sequential one and the detector reports no race. Non-trivial: at least 2 instances with different facts. Distinct by rule text + facts + interleaving point.",
+	col := stats.New("C09", "generated rule sets (as C01, pairwise distinct saliences; built from text or loaded from a binary image), k = 1..5 instances with different facts per instance. (a) every NewKnowledgeBaseInstance call succeeds (before use, after other instances ran/removed rules, and - in a third of the cases - after a rule was removed from the library itself, where the new instance must validate as the remaining rules); (b) every instance's run is validated against fresh single-rule truth and the reference replay; (c) state-hash isolation: a deep hash of everything reachable from a *KnowledgeBase by a generic reflection walk (all engine structs behind pointers/slices/maps, exported or not, incl. memo flags and remembered values; foreign objects by identity) is taken for the blueprint and the other instances before and after one instance executes, retracts and removes rules, and must not change; (d') a data context first used with one instance is then executed with another one; (d) interleaving: instance 0 is paused inside its j-th listener event while instance 1 runs to its end and has a rule removed and one retracted, then resumes - its trace must validate and equal its stand-alone run; (e) in the race-detector build G in {2,4,16,64} goroutines x GOMAXPROCS in {1,2,16} concurrently create instances from one library and execute them on their own facts: each result equals the sequential one and the detector reports no race. Non-trivial: at least 2 instances with different facts. Distinct by rule text + facts + interleaving point.",
 		"(e) samples schedules: the harness does not own the Go scheduler; the race detector is schedule-insensitive only for accesses that were executed")
 	defer col.Flush()
 	check(t, 0, budget(1200, 20000), func(rt *rapid.T) {
